@@ -114,3 +114,15 @@ def disassemble (v : Int) (allowUnknown : Bool) : Except PyErr DOp :=
 
 end Enc
 end Hera
+
+namespace Hera
+/-- `token.type == Token.REGISTER` -/
+def Tok.isReg : Tok → Bool
+  | .reg _ => true
+  | _ => false
+
+/-- `token.value` used as an int (arithmetic on a str raises TypeError) -/
+def Tok.ival : Tok → Except PyErr Int
+  | .int v | .reg v => .ok v
+  | _ => .error .TypeError
+end Hera
